@@ -57,6 +57,8 @@ def run(ctx: Ctx, env):
     from .c06 import check_token_actions
     from .c15 import _check_chain
     check_token_actions(ctx, env, "R0.literal-values-as-written")
+    from .c19 import check_py_val_case
+    check_py_val_case(ctx, env, "R0.literal-values-independent-of-case")
     _check_chain(ctx, env, "django.apply_odata_query", "odata_query.django.shorthand", "apply_odata_query", "AstToDjangoQVisitor")
 
     # ---- (1) operator constructs ---------------------------------------------------------------------------------
